@@ -410,9 +410,11 @@ async def s_close() -> List[str]:
     pool = TaskPool(pool_size=2)
     pr = Probe(pool)
     done_elems = []
+    map_gate = asyncio.Event()
 
     async def quick(x):
-        await asyncio.sleep(TICK)
+        await map_gate.wait()
+        await asyncio.sleep(0)
         done_elems.append(x)
 
     pool.apply(pr.work, kwargs={"tag": "slowcb", "gate": "g0"}, end_callback=pr.slow_end())
@@ -421,8 +423,10 @@ async def s_close() -> List[str]:
     waiter = asyncio.create_task(pool.until_closed())
     await ticks()
     closer = asyncio.create_task(pool.gather_and_close())
+    await ticks()  # the closer waits for the map's meta task (5 elements still to be consumed)
+    pr.gate("g0").set()  # task 0 ends *during that wait* and sits in its slow end callback
     await ticks()
-    pr.gate("g0").set()  # task 0 ends and sits in its slow end callback
+    map_gate.set()  # now the map runs to its end
     await ticks(30)
     if closer.done():
         pr.viol.append("gather_and_close returned while a task was still inside its end callback")
@@ -622,6 +626,57 @@ async def s_queue() -> List[str]:
     return viol
 
 
+async def s_double_cancel_turns() -> List[str]:
+    """a second cancellation request k event-loop turns after the first (k = 0..3), by id / group / all, with an async
+    cancel callback: it must be refused or harmless; callbacks stay ordered and run to completion (C03, C06)"""
+    from asyncio_taskpool import TaskPool
+
+    viol: List[str] = []
+    for how in ("id", "group", "all"):
+        for k in range(4):
+            pool = TaskPool()
+            log: List[str] = []
+            gate = asyncio.Event()
+
+            async def work():
+                await asyncio.sleep(3600)
+
+            async def ccb(i):
+                log.append("cancel:start")
+                await gate.wait()
+                log.append("cancel:done")
+
+            async def ecb(i):
+                log.append("end:start")
+                await asyncio.sleep(0)
+                log.append("end:done")
+
+            g = pool.apply(work, cancel_callback=ccb, end_callback=ecb)
+            await ticks()
+            pool.cancel(0)
+            for _ in range(k):
+                await asyncio.sleep(0)
+            try:
+                if how == "id":
+                    pool.cancel(0)
+                elif how == "group":
+                    pool.cancel_group(g)
+                else:
+                    pool.cancel_all()
+            except Exception:
+                pass
+            await ticks()
+            state_mid = (pool.num_running, pool.num_cancelled, pool.num_ended)
+            gate.set()
+            await ticks()
+            want = ["cancel:start", "cancel:done", "end:start", "end:done"]
+            if log != want:
+                viol.append(f"second cancel by {how} after {k} turn(s): callback trace {log}, expected {want}")
+            if state_mid != (0, 1, 0):
+                viol.append(f"second cancel by {how} after {k} turn(s): while the cancel callback runs the task counts as (running,cancelled,ended)={state_mid}")
+    return viol
+
+
 async def s_cancelled_flush() -> List[str]:
     """the task awaiting flush() is cancelled (wait_for timeout) while pool tasks sit in slow end/cancel callbacks:
     gather passes the cancellation on to them; afterwards the capacity must be exactly the pool size (C01, C02)"""
@@ -762,15 +817,16 @@ SCENARIOS: Dict[str, Callable] = {
     "queue": s_queue,
     "control_session": s_control_session,
     "cancelled_flush": s_cancelled_flush,
+    "double_cancel_turns": s_double_cancel_turns,
 }
 
 BY_PROPERTY = {
     "C01": ["blocked_spawners", "lifecycle_mix", "lock_while_spawner_waits", "exception_in_body_map", "cancelled_flush"],
     "C02": ["blocked_spawners", "lifecycle_mix", "slow_callbacks_flush", "exception_in_body_map", "lock_while_spawner_waits", "cancelled_flush"],
-    "C03": ["lifecycle_mix", "slow_callbacks_flush", "cancel_semantics"],
+    "C03": ["lifecycle_mix", "slow_callbacks_flush", "cancel_semantics", "double_cancel_turns"],
     "C04": ["blocked_spawners", "lifecycle_mix"],
     "C05": ["exception_in_body_map", "group_cancel"],
-    "C06": ["cancel_semantics"],
+    "C06": ["cancel_semantics", "double_cancel_turns"],
     "C07": ["group_cancel", "blocked_spawners"],
     "C08": ["close", "lock_unlock"],
     "C09": ["lock_unlock"],
